@@ -36,8 +36,8 @@ fn walks(r: &mut Rng, m: &Model, t: &Tables, k: usize) -> Vec<Vec<usize>> {
         ws.push(vec![top, u, v]);
         ws.push(vec![v, u]);
     }
-    for _ in 0..k {
-        let len = r.range(2, 7);
+    for i in 0..k {
+        let len = if i % 8 == 7 { r.range(8, 40) } else { r.range(2, 7) };
         let mut w = vec![*r.pick(&vs)];
         match r.below(4) {
             0 | 1 => {
